@@ -18,6 +18,7 @@ GLUE = "packages/beff-wasm/bundled-code/codegen-v2.js"
 TYPED_ARRAYS = {"Int8Array", "Uint8Array", "Uint8ClampedArray", "Int16Array", "Uint16Array", "Int32Array", "Uint32Array",
                 "Float32Array", "Float64Array", "BigInt64Array", "BigUint64Array"}
 REGEX_SYNTAX = set("\\^$.*+?()[]{}|/")
+LINE_TERMINATORS = {"\n": "\\n", "\r": "\\r", "\u2028": "\\u2028", "\u2029": "\\u2029"}
 
 
 def locals_in(n):
@@ -414,6 +415,7 @@ def run(cx, rep):
     else:
         t = F.hir[er[0]]
         chain = []     # (node, char, replacement) in pre-order: the outermost call (last applied) comes first
+        lt_chain = []  # the same for line terminators (rewritten as escape SEQUENCES, judged separately below)
         table = None   # or: the characters of a table that is folded / looped over, in application order
         table_ok = True
         for n in walk(t["body"]):
@@ -421,7 +423,10 @@ def run(cx, rep):
                 a0 = n["args"][0]
                 if a0["k"] == "Lit":
                     rp = n["args"][1].get("v") if n["args"][1]["k"] == "Lit" else None
-                    chain.append((n, a0.get("v"), rp))
+                    if a0.get("v") in LINE_TERMINATORS:
+                        lt_chain.append((n, a0.get("v"), rp))
+                    else:
+                        chain.append((n, a0.get("v"), rp))
                     continue
                 # table-driven form: `acc.replace(*c, &format!("\\{}", c))` for each c of a constant character table
                 ev = set(locals_in(a0))
@@ -472,8 +477,28 @@ def run(cx, rep):
                F.fns[er[0]].loc(), sample={"escaped": "".join(c for c in chars if c)})
         rep.ob("C01.3", "backslash-first", applied_first == "\\", "the backslash must be escaped before the other characters (first replacement escapes %r)" % applied_first, F.fns[er[0]].loc())
         for n, ch, rp in chain:
-            if ch:
+            if ch and ch not in LINE_TERMINATORS:
                 rep.ob("C01.3", "replacement/%s" % ch, rp == "\\" + ch, "escape of %r is %r, expected %r" % (ch, rp, "\\" + ch), "%s:%s" % (F.fns[er[0]].file, n["line"]))
+        # the escaped text is copied into a regex LITERAL of the emitted module: a raw line terminator (LF, CR, U+2028,
+        # U+2029) inside /../ is a syntax error - the module does not load (C04) - and a backslash in front of it does
+        # not help.  Whatever form the function has, it must mention each terminator together with its escape sequence.
+        lits_ = {x.get("v") for x in walk(t["body"]) if x["k"] == "Lit"} | {x.get("lit") for x in walk(t["body"]) if x["k"].startswith("P.") and x.get("lit") is not None}
+        for x in walk(t["body"]):
+            if x["k"] == "Path" and x.get("res") == "def" and (x.get("defkind") or "").startswith("Const") and x.get("def") in F.hir:
+                lits_ |= {y.get("v") for y in walk(F.hir[x["def"]]["body"]) if y["k"] == "Lit"}
+        for ch, esc in sorted(LINE_TERMINATORS.items()):
+            rep.ob("C01.3", "line-terminator/%s" % esc.strip("\\"), ch in lits_ and esc in lits_,
+                   "escape_regex does not rewrite the line terminator %r as %s: a template literal type whose text contains it (`a\\nb${string}`) is emitted as a regex literal broken over two lines, and the generated module does not load" % (ch, esc),
+                   F.fns[er[0]].loc(), sample={"terminator": esc})
+        for n, ch, rp in lt_chain:
+            rep.ob("C01.3", "replacement/%s" % LINE_TERMINATORS[ch].strip("\\"), rp == LINE_TERMINATORS[ch], "escape of %r is %r, expected %r" % (ch, rp, LINE_TERMINATORS[ch]), "%s:%s" % (F.fns[er[0]].file, n["line"]))
+            # the backslash this replacement introduces must not be doubled afterwards: the text it is applied to
+            # (its receiver) already went through the escaping of the syntax characters
+            inner = [x for x in walk(n["recv"])] if n.get("recv") is not None else []
+            later = [c_ for c_ in chain if not any(x is c_[0] for x in inner)]
+            rep.ob("C01.3", "after-backslash/%s" % LINE_TERMINATORS[ch].strip("\\"), not later,
+                   "the line terminator %r is rewritten as %s BEFORE the syntax characters are escaped (%s comes later): the backslash of the escape sequence is doubled and the expression demands a literal backslash" % (ch, LINE_TERMINATORS[ch], ", ".join(repr(c_[1]) for c_ in later)),
+                   "%s:%s" % (F.fns[er[0]].file, n["line"]))
     # ---------------------------------------------------------------- C01.7
     rep.rule("C01.7", "the printer takes IR nodes apart without dropping a field")
     partial_projection_rule(cx, rep, "C01.7")
@@ -481,6 +506,17 @@ def run(cx, rep):
     rep.rule("C01.14", "the regex of a template literal type is built from the text its chunks stand for (cooked), and the description escapes it again")
     from rules.c15 import template_chunk_rule
     template_chunk_rule(cx, rep, "C01.14")
+    # ---------------------------------------------------------------- C01.15
+    rep.rule("C01.15", "a key validator of an index signature is offered the numeric reading of a property name")
+    ts_common.numeric_key_rule(ts_common.Family(cx), ts_common.Family(cx).mod, rep, "C01.15")
+    # ---------------------------------------------------------------- C01.18 (= C07.11)
+    rep.rule("C01.18", "the rest element of a list answers for every index from the prefix length on (boundary of the prefix walk)")
+    prefix_boundary_rule(cx, rep, "C01.18")
+    # ---------------------------------------------------------------- C01.16 / C01.17
+    rep.rule("C01.16", "every member of a union inside a template literal type contributes an alternative")
+    alternation_rule(cx, rep, "C01.16")
+    rep.rule("C01.17", "the string placeholder of a template literal type matches text with line breaks")
+    dotall_rule(cx, rep, "C01.17")
     # ---------------------------------------------------------------- C01.12 (= C08.6)
     rep.rule("C01.12", "narrowing a property declared by two intersection members keeps the narrower type whichever member comes first")
     from rules.c08 import symmetric_merge_rule
@@ -547,3 +583,155 @@ def run(cx, rep):
     # ---------------------------------------------------------------- C01.13
     rep.rule("C01.13", "validate() looks at every index of an input array (no hole-skipping walk of the input)")
     ts_common.hole_skipping_rule(cx, rep, "C01.13", ['validate'])
+
+
+DROPPING = {"filter", "filter_map", "skip", "take", "skip_while", "take_while", "step_by", "find", "find_map", "nth", "last", "next", "first", "dedup", "truncate", "retain"}
+
+
+def alternation_rule(cx, rep, rid):
+    """A union inside a template literal type (`${"" | "b"}`) becomes an alternation of the members' expressions.
+    Every member must contribute an alternative - also the empty string, whose expression is empty: dropping it
+    (`.filter(|e| !e.is_empty())`) turns `a${"" | "b"}` into /(a)((b))/, which rejects "a".  Decided on the functions of
+    the IR module that turn template items into text (regex and description alike): in the arm for the variant that
+    holds a collection of items, nothing between the payload and the `join` drops elements."""
+    F = cx.rs
+    from rules.c15 import _template_item_enum
+    enum, rec_variant = _template_item_enum(F)
+    if enum is None:
+        rep.anchor_missing(rid, "the template item enum (a variant holding a collection of the enum itself)")
+        return
+    n = 0
+    for g, t in sorted(F.hir.items()):
+        f = F.fns.get(g)
+        if f is None or f.kind == "Closure" or not (f.file or "").endswith("ast/runtype.rs") or "String" not in (f.output or ""):
+            continue
+        for m in walk(t["body"]):
+            if m["k"] != "Match":
+                continue
+            for a in m["arms"]:
+                if (a["pat"].get("def") or "") != "%s::%s" % (enum, rec_variant):
+                    continue
+                if not any(x["k"] == "MethodCall" and x["method"] == "join" for x in walk(a["body"])):
+                    continue
+                n += 1
+                drops = [x for x in walk(a["body"]) if x["k"] == "MethodCall" and x["method"] in DROPPING and not (x.get("callee") or "").startswith("std::option")]
+                rep.ob(rid, "%s/every-alternative" % g.rsplit("::", 2)[-2] + "::" + g.rsplit("::", 1)[-1], not drops,
+                       "%s drops members of a union of template alternatives (%s) before joining them: a member whose text is empty (`${\"\" | \"b\"}`) or that the adaptor skips no longer matches, so values of the type are rejected" % (g, ", ".join(sorted({x["method"] for x in drops}))),
+                       "%s:%s" % (f.file, (drops[0] if drops else a).get("line")), sample={"fn": g})
+    rep.floor(rid, "arms that join the alternatives of a template union", n, 2)
+
+
+def dotall_rule(cx, rep, rid):
+    """`${string}` stands for ANY text.  The compiler emits it as `(.*)`; in JavaScript `.` does not match line
+    terminators unless the expression has the `s` flag, so "a\\nb" would be rejected by `a${string}`.  Decided across
+    the two languages: if the expression the IR module emits for the string placeholder contains an unescaped `.`
+    outside a character class, the runtime class that wraps the emitted RegExp compiles it with the `s` flag."""
+    F = cx.rs
+    from rules.c15 import _template_item_enum
+    enum, rec_variant = _template_item_enum(F)
+    needs = []
+    for g, t in sorted(F.hir.items()):
+        f = F.fns.get(g)
+        if f is None or not (f.file or "").endswith("ast/runtype.rs") or "String" not in (f.output or ""):
+            continue
+        for m in walk(t["body"]):
+            if m["k"] != "Match":
+                continue
+            for a in m["arms"]:
+                d = a["pat"].get("def") or ""
+                if enum and d.startswith(enum + "::") and a["pat"]["k"] == "P.Expr":
+                    for x in walk(a["body"]):
+                        if x["k"] == "Lit" and x.get("lit") == "str" and re.search(r"(?<!\\)\.[*+]", re.sub(r"\[[^\]]*\]", "", x.get("v") or "")):
+                            needs.append((g, d.rsplit("::", 1)[-1], x.get("v")))
+    fam = ts_common.Family(cx)
+    mod = fam.mod
+    n = 0
+    for cname, c in sorted(fam.classes.items()):
+        if c.ctor is None:
+            continue
+        params = c.ctor_params()
+        if not any("RegExp" in (tsast.type_str(p[1]) if p[1] is not None else "") for p in params):
+            continue
+        for x in tsast.walk(c.ctor):
+            if x["type"] == "NewExpression" and tsast.s(x["callee"]) == "RegExp" and x.get("arguments"):
+                n += 1
+                flags = tsast.s(x["arguments"][1]["expression"]) if len(x["arguments"]) > 1 else ""
+                ok = (not needs) or '"s"' in flags or "'s'" in flags
+                rep.ob(rid, "%s/dot-matches-line-breaks" % cname, ok,
+                       "the compiler emits %s for the %s placeholder of a template literal type, and %s compiles the expression without the `s` flag (%s): `.` stops at line terminators, so `a${string}` rejects \"a\\nb\", which is a value of the type" % (needs[0][2] if needs else "?", needs[0][1] if needs else "?", cname, flags or "no flags"),
+                       mod.loc(x), sample={"emitted": [v for _, _, v in needs], "flags": flags})
+    rep.floor(rid, "runtime classes that compile an emitted regular expression", n, 1)
+
+
+def prefix_boundary_rule(cx, rep, rid):
+    """A list type is a prefix of L positional members plus a rest element for every index >= L.  Code that answers
+    for a set of indices walks the prefix with `enumerate()` (indices 0 .. L-1, exactly) and adds the rest element
+    when the LARGEST index reaches past the prefix.  That test has to be true for max == L and false for max == L-1:
+    written against `L` it is `max >= L` or `max > L - 1`; any other offset (`max > L`) loses the member at index L
+    (`[string, ...number[]][1]` becomes `never`) or adds the rest element to a tuple index.  Decided for the
+    functions of the subtyping engine that enumerate a slice parameter and compare something with its length: the
+    comparison is linear in L and its boundary is the one above."""
+    F = cx.rs
+    n = 0
+    for g, t in sorted(F.hir.items()):
+        f = F.fns.get(g)
+        if f is None or f.kind == "Closure" or "/src/subtyping/" not in (f.file or ""):
+            continue
+        body = t["body"]
+        # slices that are enumerated
+        enum_lids = set()
+        for x in walk(body):
+            if x["k"] == "MethodCall" and x["method"] == "enumerate":
+                for y in walk(x["recv"]):
+                    if y["k"] == "Path" and y.get("res") == "local" and re.search(r"^&?\[|Vec<", y.get("ty") or ""):
+                        enum_lids.add(y["lid"])
+        if not enum_lids:
+            continue
+        # L: locals bound to <slice>.len(), and the expression itself
+        len_lids = set()
+        for x in walk(body):
+            if x["k"] == "LetStmt" and x.get("init") is not None and x["pat"]["k"] == "P.Binding":
+                i_ = x["init"]
+                if i_["k"] == "MethodCall" and i_["method"] == "len" and any(y["k"] == "Path" and y.get("lid") in enum_lids for y in walk(i_["recv"])):
+                    len_lids.add(x["pat"]["lid"])
+
+        def linear(e):
+            """(coefficient of L, constant) or None"""
+            while e["k"] in ("Cast", "Paren", "DropTemps"):
+                e = e["e"]
+            if e["k"] == "Path" and e.get("lid") in len_lids:
+                return (1, 0)
+            if e["k"] == "MethodCall" and e["method"] == "len" and any(y["k"] == "Path" and y.get("lid") in enum_lids for y in walk(e["recv"])):
+                return (1, 0)
+            if e["k"] == "Lit" and re.match(r"^-?\d+$", str(e.get("v"))):
+                return (0, int(e["v"]))
+            if e["k"] == "Binary" and e["op"] in ("Add", "Sub"):
+                l_, r_ = linear(e["l"]), linear(e["r"])
+                if l_ is None or r_ is None:
+                    return None
+                sg = 1 if e["op"] == "Add" else -1
+                return (l_[0] + sg * r_[0], l_[1] + sg * r_[1])
+            return None
+        for x in walk(body):
+            if x["k"] != "Binary" or x["op"] not in ("Gt", "Ge", "Lt", "Le"):
+                continue
+            l_, r_ = linear(x["l"]), linear(x["r"])
+            # exactly one side is (L + c); the other side is something else (a maximum, an index)
+            if (l_ is None) == (r_ is None):
+                continue
+            lin, other, op = (r_, x["l"], x["op"]) if l_ is None else (l_, x["r"], {"Gt": "Lt", "Ge": "Le", "Lt": "Gt", "Le": "Ge"}[x["op"]])
+            if lin[0] != 1:
+                continue
+            if any(y["k"] == "Path" and y.get("lid") in len_lids for y in walk(other)):
+                continue
+            # now: other OP L + c.  Only the "reaches past the prefix" direction is a boundary of this kind.
+            if op not in ("Gt", "Ge"):
+                continue
+            n += 1
+            c = lin[1]
+            ok = (op == "Gt" and c == -1) or (op == "Ge" and c == 0)
+            rep.ob(rid, "%s/rest-from-index-L" % g.rsplit("::", 1)[-1], ok,
+                   "%s walks the prefix with enumerate() (indices 0 .. L-1) and then tests `<max> %s L%s` to decide whether the rest element takes part: for max == L that is %s, so the member at index L (the first rest position) is %s - `[string, ...number[]][1]` is computed as `never`" % (
+                       g, ">" if op == "Gt" else ">=", ("%+d" % c) if c else "", "false" if not ok and ((op == "Gt" and c > -1) or (op == "Ge" and c > 0)) else "true for max == L-1 already", "lost" if ((op == "Gt" and c > -1) or (op == "Ge" and c > 0)) else "added to a prefix index"),
+                   "%s:%s" % (f.file, x["line"]), sample={"fn": g, "comparison": "%s L%+d" % (op, c)})
+    rep.floor(rid, "prefix / rest boundary tests", n, 1)
